@@ -102,7 +102,7 @@ def _account(ck, results):
     return by
 
 
-def _account_transcripts(ck, d, results):
+def _account_transcripts(ck, d, results, site=None):
     """Binding 2: the transcript operations recorded by the implementation
     (trace hook) equal, exactly, what the exported item list performs."""
     seen = {}
@@ -116,6 +116,9 @@ def _account_transcripts(ck, d, results):
         diff = tr.get("diff") or {}
         key = {"site": "verify-transcript", "phase": tr.get("phase"), "version": r["version"],
                "at": diff.get("at"), "label": diff.get("label")}
+        if site:
+            key = {"site": site, "what": "verify-transcript", "program": r["family"],
+                   "at": diff.get("at"), "label": diff.get("label")}
         k = json.dumps(key, sort_keys=True)
         if k in seen:
             seen[k] += 1
@@ -140,6 +143,9 @@ def _account_transcripts(ck, d, results):
             key = {"site": "prove-transcript", "phase": r["phase"], "version": r.get("version"),
                    "at": diff.get("at"), "label": diff.get("label"),
                    "challenges_agree": r.get("challenges_agree")}
+            if site:
+                key = {"site": site, "what": "prove-transcript", "program": r["family"],
+                       "at": diff.get("at"), "label": diff.get("label")}
             k = json.dumps(key, sort_keys=True)
             if k in seen:
                 seen[k] += 1
@@ -154,6 +160,80 @@ def _account_transcripts(ck, d, results):
     ck.extra["transcripts_compared"] = {"verifier": n_cmp, "prover": n_p,
                                         "distinct_differences": {k: v for k, v in seen.items()}}
     return n_cmp, n_p
+
+
+_ITEMS = {}
+
+
+def export_items(d):
+    """Exports Transcript!VerifierItems / ProverItems (0..40 public inputs) with a
+    cheap TLC run (no model checking of the design); cached per process."""
+    if "path" in _ITEMS and os.path.exists(_ITEMS["path"]):
+        return _ITEMS["path"], None
+    items = os.path.join(d, "items.json")
+    res = vlib.tlc("TranscriptMC", cfg="TranscriptExport.cfg", workers=1, timeout=300,
+                   env={"ITEMS_OUT": items})
+    if res.violated or not os.path.exists(items):
+        raise vlib.ToolError("item export failed:\n" + res.out[-2000:])
+    _ITEMS["path"] = items
+    return items, res
+
+
+def reference_check(ck, programs, tier="quick", tag="ref"):
+    """Specification-driven reference verification of the caller's own honest
+    programs (for the gadget checks C05, C08-C14: a consistent prover+verifier
+    weakening of a widget makes the reference verifier reject honest proofs of
+    circuits that contain the widget).
+
+    ck       : the caller's vlib.Check (TLC runs are added with ck.add_tlc,
+               disagreements reported with ck.violation, key
+               {"site": "reference-verifier", "program": id, ...})
+    programs : list of {"id": ..., "ops": [...]} (plonk_conf::prog programs;
+               honest, satisfiable). Each is compiled and proved (V3, ScriptRng);
+               judged: the honest triple, first public input + 1, a_eval := b_eval,
+               a_comm := b_comm; plus the prover's and verifier's transcript
+               operations against Transcript!ProverItems / VerifierItems.
+    returns  : {"programs", "triples", "events", "disagreements",
+                "transcript_differences", "skipped": [{"program","why"}], "wall_s"}
+    Does not run TranscriptMC / ProtocolMC (only the item export, ~3 s)."""
+    import time
+    t0 = time.time()
+    d = vlib.workdir("%s-%s" % (ck.pid, tag))
+    items, res = export_items(d)
+    if res is not None:
+        ck.add_tlc(res, "TranscriptMC/export", {"MaxExport": 40}, exhaustive=False)
+    stdin = "".join(json.dumps({"id": str(p["id"]), "ops": p["ops"]}, separators=(",", ":")) + "\n"
+                    for p in programs)
+    out = vlib.harness("refverify", ["programs", "--items", items, "--out", d], stdin=stdin, timeout=1200)
+    stats = vlib.read_ndjson_text(out)[-1]
+    summary = {"programs": len(programs), "triples": stats["triples"], "events": stats["events"],
+               "disagreements": 0, "transcript_differences": 0, "skipped": stats["skipped"]}
+    for sk in stats["skipped"]:
+        ck.notes.append("reference_check: program %s not judged (%s)" % (sk["program"], sk["why"]))
+    if stats["events"] == 0:
+        summary["wall_s"] = round(time.time() - t0, 1)
+        return summary
+    results, _ = _conformance(ck, d, items, workers=4, timeout=900)
+    for r in results:
+        trivial = r.get("same_as_base", False)
+        ck.case({"reference-verifier": [r["family"], r["kind"], r["id"]]}, nontrivial=not trivial)
+        ck.traces += 1
+        if r["kind"] == "honest" and r["ref"] == "accept" and r["real"] == "accept":
+            continue
+        if not r["agree"]:
+            summary["disagreements"] += 1
+            ck.violation("reference verifier and Verifier::verify disagree on the %s triple of program %s: "
+                         "implementation says %s, specification says %s"
+                         % (r["kind"], r["family"], r["real"], r["ref"]),
+                         {"key": {"site": "reference-verifier", "program": r["family"], "kind": r["kind"],
+                                  "real": r["real"].split(":")[0], "ref": r["ref"].split(":")[0]},
+                          "triple": r.get("replay"), "result": r,
+                          "ops": next((p["ops"] for p in programs if str(p["id"]) == r["family"]), None)})
+    before = len(ck.violations) + len(ck.known)
+    _account_transcripts(ck, d, results, site="reference-verifier")
+    summary["transcript_differences"] = len(ck.violations) + len(ck.known) - before
+    summary["wall_s"] = round(time.time() - t0, 1)
+    return summary
 
 
 def run(tier):
